@@ -89,7 +89,14 @@ def dt_cases6(draw, tier, kind):
     if draw(st.booleans()):
         f = graft(f, draw(mixed_predicate(vs)), draw(st.lists(st.integers(0, 1), max_size=4)))
     n = draw(F.trace_lengths(8))
-    return {'kind': kind, 'formula': f, 'vars': vs, 'trace': draw(F.traces(vs, n=n)),
+    tr = draw(F.traces(vs, n=n))
+    if draw(st.integers(0, 3)) == 0:
+        few = st.sampled_from([0.0, 1.0, 2.0, 3.0, -1.0])
+        tr = {v: [draw(few) for _ in range(n)] for v in vs}
+        v = draw(st.sampled_from(vs))
+        eq = ('pred', draw(st.sampled_from(['==', '!==', '==', '<=', '>'])), ('var', v), ('const', draw(st.sampled_from([1.0, 2.0, 0.0]))))
+        f = graft(f, eq, draw(st.lists(st.integers(0, 1), max_size=4)))
+    return {'kind': kind, 'formula': f, 'vars': vs, 'trace': tr,
             'sem': draw(st.sampled_from(SEMS)), 'io': draw(io_assign(vs))}
 
 
@@ -102,6 +109,14 @@ def ct_cases6(draw, tier, kind):
     c['kind'] = kind
     c['sem'] = draw(st.sampled_from(SEMS))
     c['io'] = draw(io_assign(c['vars']))
+    if draw(st.integers(0, 3)) == 0:
+        # mode-like signals: very few distinct values, so that consecutive segments differ from a constant by the same
+        # amount with opposite sign, and equality predicates
+        few = st.sampled_from([0.0, 1.0, 2.0, 3.0, -1.0])
+        c['signals'] = {v: [[k, draw(few)] for k, _ in s] for v, s in c['signals'].items()}
+        v = draw(st.sampled_from(c['vars']))
+        eq = ('pred', draw(st.sampled_from(['==', '!==', '==', '<=', '>'])), ('var', v), ('const', draw(st.sampled_from([1.0, 2.0, 0.0]))))
+        c['formula'] = graft(from_json(c['formula']), eq, draw(st.lists(st.integers(0, 1), max_size=4)))
     return c
 
 
